@@ -580,9 +580,20 @@ def c04(run, an=None):
                 msgs = [e for e in st.events if e.startswith("msg ")]
                 rets = [e for e in st.events if e.startswith("ret ") and " ok msg" in e]
                 expect_delivery = True
+                # the acknowledgement could not be queued (it exceeds the broker's maximum packet size:
+                # C14 closes the connection): the packet is neither delivered nor acknowledged, and —
+                # since the repair recorded as F24 — not remembered either, so a retransmission counts
+                # as the first arrival
+                if p["qos"] > 0 and any(re.match(r"ret \w+ err (Peer.InvalidPacket|Resource.PacketTooLarge|Resource.InflightExhausted)", e) for e in st.events):
+                    continue
                 if p["qos"] == 1:
-                    if p["id"] in pending or p["id"] == 0:
+                    if p["id"] == 0:
                         continue      # broker misuse of an id: outside the property's quantifier
+                    if p["id"] in pending:
+                        # broker misuse (identifier of an unfinished inbound QoS 2 exchange): the client
+                        # answers "packet identifier in use"; nothing else is judged for this packet
+                        owed.append(("PUBACK", p["id"], 0x91))
+                        continue
                     owed.append(("PUBACK", p["id"], 0))
                 elif p["qos"] == 2:
                     if p["id"] == 0:
@@ -621,8 +632,15 @@ def c04(run, an=None):
                     except Malformed:
                         pass
                 else:
-                    if msgs and rets:
-                        out.append(V("C04", "duplicate-delivered", f"QoS 2 id {p['id']} delivered again before PUBREL", step=when[0]))
+                    # several packets can be consumed in one step (`go` keeps polling): the message
+                    # delivered in this step must be THIS packet to count as a second delivery
+                    def is_this(line):
+                        kv = parse_msg_line(line)
+                        return kv.get("qos") == "2" and kv.get("topic") == (p["topic"].hex() or "-") and kv.get("payload") == (p["payload"].hex() or "-")
+                    if rets and any(is_this(m) for m in msgs):
+                        later_same = [q for (w2, s2, q) in an.events if s2 == "S" and w2[0] == when[0] and w2 != when and q["type"] == "PUBLISH" and q.get("id") == p["id"] and q.get("qos") == 2]
+                        if not later_same:
+                            out.append(V("C04", "duplicate-delivered", f"QoS 2 id {p['id']} delivered again before PUBREL", step=when[0]))
             elif p["type"] == "PUBREL":
                 if p["id"] in pending:
                     pending.discard(p["id"])
@@ -803,8 +821,11 @@ def c06(run, an=None):
                     # known sub-case: the broker's window is smaller than what must be replayed
                     # known sub-case F5c: the replays carried over from earlier connections alone fill
                     # or exceed the window this CONNACK announced
-                    replays = sum(1 for q in unresolved.values() if q["dup"])
-                    f = "F5c" if replays >= rm else None
+                    # (the window is forgotten for the rest of the connection: the quota is restored by
+                    # the acknowledgements of the replays although the window was over-subscribed from
+                    # the start — so every later excess on this transport is the same finding)
+                    replays = sum(1 for q in n["client"] if q["type"] == "PUBLISH" and q["qos"] > 0 and q["dup"])
+                    f = "F5c" if replays > rm else None
                     out.append(V("C06", "receive-maximum-exceeded", f"transport {t}: {len(unresolved)} unresolved ids {sorted(unresolved)} > Receive Maximum {rm}", step=when[0], finding=f))
             elif side == "S":
                 if p["type"] in ("PUBACK", "PUBCOMP"):
